@@ -22,6 +22,7 @@ import (
 	"strconv"
 	"strings"
 	"sync"
+	"syscall"
 	"testing"
 	"time"
 
@@ -65,7 +66,42 @@ func decideWith(body []byte, bm *model.BiasMap) (out Outcome) {
 	return decideDM(&dm, bm)
 }
 
+// Calls into the code under test are bracketed by sutEnter / sutLeave, so that the per-case watchdog can tell a
+// decision that does not return (a violation of every property: the request is never answered) from an oracle
+// of the harness that is too slow (inconclusive).
+var sutMu sync.Mutex
+var sutCalls = map[int64]time.Time{}
+var sutNext int64
+
+func sutEnter() int64 {
+	sutMu.Lock()
+	defer sutMu.Unlock()
+	sutNext++
+	sutCalls[sutNext] = time.Now()
+	return sutNext
+}
+
+func sutLeave(id int64) {
+	sutMu.Lock()
+	delete(sutCalls, id)
+	sutMu.Unlock()
+}
+
+// sutBlockedFor returns how long the oldest call into the code under test has been running (0: none in flight).
+func sutBlockedFor() time.Duration {
+	sutMu.Lock()
+	defer sutMu.Unlock()
+	var d time.Duration
+	for _, t0 := range sutCalls {
+		if x := time.Since(t0); x > d {
+			d = x
+		}
+	}
+	return d
+}
+
 func decideDM(dm *model.DecisionMaker, bm *model.BiasMap) (out Outcome) {
+	defer sutLeave(sutEnter())
 	defer func() {
 		if e := recover(); e != nil {
 			out = Outcome{Err: fmt.Sprint(e)}
@@ -615,6 +651,13 @@ func judgeWatched[C any](prop, name string, c C, judge func(C) *Fail) *Fail {
 	case f := <-done:
 		return f
 	case <-time.After(limit):
+		if d := sutBlockedFor(); d > limit*3/4 {
+			// the time was spent inside MakeDecision / the handler, not in the oracle: the request is never answered
+			writeReplayAs(prop, name, name+"-noanswer", c, failf("decision-returns", "a call into the decision maker has not returned for %v", d.Round(time.Second)))
+			fmt.Printf("VIOLATION-CANDIDATE property=%s check=%s rule=decision-returns: a call into the decision maker has not returned for %v\n", prop, name, d.Round(time.Second))
+			st.dump()
+			os.Exit(4)
+		}
 		writeReplayAs(prop, name, name+"-hang", c, failf("case-does-not-return", "the case did not return within %v", limit))
 		fmt.Printf("HANG property=%s check=%s: a single case did not return within %v\n", prop, name, limit)
 		st.dump()
@@ -716,8 +759,21 @@ func TestReplay(t *testing.T) {
 		t.Fatalf("unknown check %q in replay", rf.Check)
 	}
 	rep := int(envInt("VERIF_REPLAY_REPEAT", 20))
+	limit := time.Duration(envInt("VERIF_CASE_TIMEOUT_S", 120)) * time.Second
 	for i := 0; i < rep; i++ {
-		if f := rc.replay(rf.Case); f != nil {
+		done := make(chan *Fail, 1)
+		go func() { done <- rc.replay(rf.Case) }()
+		var f *Fail
+		select {
+		case f = <-done:
+		case <-time.After(limit):
+			if d := sutBlockedFor(); d > limit*3/4 {
+				f = failf("decision-returns", "a call into the decision maker has not returned for %v", d.Round(time.Second))
+			} else {
+				t.Fatalf("the replayed case did not return within %v (harness side): no verdict", limit)
+			}
+		}
+		if f != nil {
 			fmt.Printf("REPLAY-FAIL property=%s check=%s rule=%s: %s\n", rf.Property, rf.Check, f.Rule, f.Detail)
 			t.Fatalf("replay reproduces the violation (execution %d)", i+1)
 		}
@@ -730,6 +786,12 @@ func TestMain(m *testing.M) {
 	loadFindings()
 	if v := envInt("VERIF_MAXSTACK", 0); v > 0 {
 		debug.SetMaxStack(int(v))
+	}
+	if v := envInt("VERIF_RLIMIT_AS_MB", 0); v > 0 {
+		// a request that makes the service allocate without bound must kill this process (and the server child,
+		// which inherits the limit), not the machine
+		lim := syscall.Rlimit{Cur: uint64(v) << 20, Max: uint64(v) << 20}
+		_ = syscall.Setrlimit(syscall.RLIMIT_AS, &lim)
 	}
 	code := m.Run()
 	theServer.stop()
